@@ -45,6 +45,13 @@ pub fn generate(thorough: bool, seed: u64, em: &mut Emitter) {
         let mut case = present_case(&tok, &token, &clear, &redact, kb, 3, verifier);
         case["judge_disclosures"] = json!(true);
         case["nontrivial"] = json!(true);
+        if i % 5 == 2 {
+            // key_binding called twice on the same Holder with different parameters: the KB-JWT is built from the
+            // parameters supplied last
+            let other_alg = *r.pick(&["RS256", "RS384", "RS512", "PS256", "PS384", "PS512"]);
+            case["kb_first"] = json!({"aud": *r.pick(&["https://typo.example", "aud2", "x"]), "alg": other_alg});
+            case["tag"] = json!("key_binding_called_twice");
+        }
         if i % 2 == 1 && !redact.is_empty() {
             // staged: build, redact some more on the same Holder, build again (twice); each KB-JWT must commit to
             // the presentation it is attached to, and the last build is the presentation for the whole set
